@@ -30,13 +30,24 @@ ARFF_SPARSE = ['@relation t', '@attribute a numeric', '@attribute b {x,y}', '@at
 ARFF_QUOTES = ['@relation t', '@attribute a string', '@attribute b string', '@attribute c numeric', '@data',
                "'p q',r,1", '"s, t",u,2', "v,'w\"',3"]
 
-SOURCES = ['dl', 'dc', 'sk', 'si', 'sc', 'ad', 'as', 'aq', 'lz', 'lzs']
+SOURCES = ['dl', 'dc', 'sk', 'si', 'sc', 'ad', 'as', 'aq', 'lz', 'lzs', 'lzr', 'ae', 'aes']
+
+# cell values the lazy rows special-case ('', '?', quoted '?', a level named '?', '0', 'None') in numeric, string and
+# nominal attributes: every access path must treat them like the eager table does
+ARFF_SPECIAL = ['@relation t', '@attribute n numeric', '@attribute s string', '@attribute k {x,?}', '@data',
+                "1,'',x", '?,?,?', '0,None,x', ",'?',x", '2,,?']
+ARFF_SPARSE_SPECIAL = ['@relation t', '@attribute a numeric', '@attribute b {x,?}', '@attribute c string', '@data',
+                       '{0 ?, 1 ?, 2 ?}', '{1 x, 2 0}', '{0 0}']
+# LazyDense whose header names sit at other positions than in 'lz' / 'ad' (partner table of the re-use cases)
+LZR_RAW = [['12', '10', '11'], ['22', '20', '21']]
+LZR_ENC = ['B', 'I', 'A']
+LZR_HDR = ['c', 'a', 'b']
 
 # LazyDense / LazySparse constructed the way ArffReader wires them (loader callable, encoders, header maps, not-sparse set),
 # but with encoders that are not idempotent, so that an encoder applied twice or to the wrong column is visible
-LZ_RAW = [['10', '11', '12'], ['20', '21', '22']]
+LZ_RAW = [['10', '11', '12'], ['20', '?', '']]          # '?' and '' are cells like any other for encoders that accept them
 LZ_ENC = ['I', 'A', 'B']
-LZS_RAW = [{0: '10', 2: '12'}, {1: '21'}]
+LZS_RAW = [{0: '10', 2: '12'}, {1: '?', 2: ''}]
 LZS_ENC = {0: 'I', 1: 'A', 2: 'B'}
 LZ_HDR = ['a', 'b', 'c']
 
@@ -87,6 +98,18 @@ def source_model(name):
     if name == 'lz':
         return Tbl('dense', [[ENC[e](v) for e, v in zip(LZ_ENC, r)] for r in LZ_RAW], headers=list(LZ_HDR), missing=[False, False],
                    plain=False, arff=True)
+    if name == 'lzr':
+        return Tbl('dense', [[ENC[e](v) for e, v in zip(LZR_ENC, r)] for r in LZR_RAW], headers=list(LZR_HDR), missing=[False, False],
+                   plain=False, arff=True)
+    if name == 'ae':
+        L = ['x', '?']
+        return Tbl('dense', [[1.0, '', cat('x', L)], [None, None, cat('?', L)], [0.0, 'None', cat('x', L)],
+                             [None, None, cat('x', L)], [2.0, '', cat('?', L)]],
+                   headers=['n', 's', 'k'], plain=False, arff=True)
+    if name == 'aes':
+        L = ['0', 'x', '?']
+        return Tbl('sparse', [{'a': None, 'b': cat('?', L), 'c': None}, {'b': cat('x', L), 'c': '0'}, {'a': 0.0, 'b': cat('0', L), 'c': '0'}],
+                   plain=False, arff=True)
     if name == 'lzs':
         rows = []
         for r in LZS_RAW:
@@ -103,6 +126,9 @@ def source_raw(name):
     if name == 'ad': return ('arff', list(ARFF_DENSE))
     if name == 'as': return ('arff', list(ARFF_SPARSE))
     if name == 'aq': return ('arff', list(ARFF_QUOTES))
+    if name == 'ae': return ('arff', list(ARFF_SPECIAL))
+    if name == 'aes': return ('arff', list(ARFF_SPARSE_SPECIAL))
+    if name == 'lzr': return ('lazydense-r', [list(r) for r in LZR_RAW])
     if name == 'lz': return ('lazydense', [list(r) for r in LZ_RAW])
     if name == 'lzs': return ('lazysparse', [dict(r) for r in LZS_RAW])
     t = source_model(name)
@@ -373,4 +399,21 @@ def stage_kind(st):
 
 SRC_KIND = {'dl': 'dense lists', 'dc': 'dense lists with Categorical', 'sk': 'sparse dicts', 'si': 'sparse dicts (int keys)',
             'sc': 'sparse dicts with Categorical', 'ad': 'ARFF dense', 'as': 'ARFF sparse', 'aq': 'ARFF dense (mixed quoting)',
-            'lz': 'LazyDense rows', 'lzs': 'LazySparse rows'}
+            'lz': 'LazyDense rows', 'lzs': 'LazySparse rows', 'lzr': 'LazyDense rows (other header order)',
+            'ae': 'ARFF dense (special cells)', 'aes': 'ARFF sparse (special cells)'}
+
+# re-use cases: the SAME filter objects are applied to table 1, then table 2, then table 1 again
+REUSE_GROUPS = [['dl', 'ad', 'lz', 'lzr', 'aq', 'ae'],        # dense: unheaded / headed / other header order / other names
+                ['sk', 'as', 'lzs', 'aes'],                    # sparse keyed by name
+                ['dl', 'si']]                                   # dense vs sparse keyed by column number (index-based stages)
+REUSE_SELF = ['dc', 'sc', 'si']
+
+
+def reuse_pairs():
+    out = []
+    for g in REUSE_GROUPS:
+        for x in g:
+            for y in g:
+                if x != y and [x, y] not in out: out.append([x, y])
+    out += [[x, x] for x in REUSE_SELF]
+    return out
